@@ -67,7 +67,7 @@ def judge(run: Run, cases: list[dict], res: list[dict], prop: str = "C01") -> No
         if clause == "ok":
             continue
         c, r = cases[i], res[i]
-        run.violation({"src": c["src"], "mode": c["mode"], "layer": c["layer"], "layout": c["layout"]}, clause,
+        run.violation({"src": c["src"], "mode": c["mode"], "layer": c["layer"], "layout": c["layout"], "entry": c.get("entry", "string")}, clause,
                       {"row": k, "diff": r.get("diff"), "impl_exc": r.get("impl_exc"), "eq_after_bytecols": r.get("eq_after_bytecols")})
 
 
@@ -77,12 +77,18 @@ def check(run: Run) -> None:
     sents = pyprog.sentences(run, run.tier, g)
     cases = pyprog.programs(run, run.tier, sents, cfg["variants"], cfg["layouts"], cap_per_layer=cfg["cap"])
     cases += corpus_cases(cfg)
-    res = run_ops("c01", [{"src": c["src"], "mode": c["mode"]} for c in cases], limit=20.0)
+    # the file entry point must build the same trees: every 7th module-mode program (seed-shifted) and every layout variant of the corpus
+    from ..core import SEED
+
+    twins = [dict(c, entry="file", layer=c["layer"] + ":file") for i, c in enumerate(cases)
+             if c["mode"] == "exec" and ((i + SEED) % 7 == 0 or c.get("layout") == "corpus")]
+    cases += twins
+    res = run_ops("c01", [{"src": c["src"], "mode": c["mode"], "entry": c.get("entry", "string")} for c in cases], limit=20.0)
     valid = 0
     for c, r in zip(cases, res):
         if r["py_ok"]:
             valid += 1
-            run.count_case(c["src"] + c["mode"], nontrivial=len(c["src"]) > 3)
+            run.count_case(c["src"] + c["mode"] + c.get("entry", ""), nontrivial=len(c["src"]) > 3)
             if valid % 997 == 0:
                 run.sample({"src": c["src"], "mode": c["mode"], "layer": c["layer"]})
     judge(run, cases, res)
@@ -99,8 +105,8 @@ def check(run: Run) -> None:
 
 def replay(rec: dict) -> int:
     c = rec["case"]
-    r = run_ops("c01", [{"src": c["src"], "mode": c["mode"]}], limit=20.0)[0]
-    print("source:", repr(c["src"]), "mode:", c["mode"])
+    r = run_ops("c01", [{"src": c["src"], "mode": c["mode"], "entry": c.get("entry", "string")}], limit=20.0)[0]
+    print("source:", repr(c["src"]), "mode:", c["mode"], "entry:", c.get("entry", "string"))
     print("cpython accepts:", r["py_ok"], " implementation accepts:", r["impl_ok"], r.get("impl_exc"))
     print("first difference:", r.get("diff"))
     return 0 if (not r["py_ok"]) or (r["impl_ok"] and r.get("a") == r.get("b")) else 1
